@@ -9,7 +9,7 @@ CONSTANTS
   H6 = 2
   Gaps <- NoGaps
   Horizon = 0
-  MaxCalls = 5
+  MaxCalls = 4
   HHMetas <- MetasHH
   HHVals <- ValsHH
   GenLen = 0
